@@ -208,6 +208,13 @@ def fault_formats(tier):
                     continue
                 out.append((G.mk_spec(nm, [G.opt_kind("req", "int")] if nm is not G.NAMES2 else [], aks),
                             dict(dom_n=1, arg_dom_n=1, multi_len=1, arg_multi_len=1 if q else 2)))
+    # one format split between a base and a derived format with an empty level in between (a three-level chain)
+    for nb in (0, 1):
+        for mask in ((True, False), (False, True)):
+            for na in (0, 1):
+                out.append((G.mk_spec(G.NAMES1, [G.opt_kind("flag"), G.opt_kind("req", "int")],
+                                      [R, G.arg_kind("opt", "int", False, "typed")], [nb, list(mask), na, 1]),
+                            dict(dom_n=1, arg_dom_n=1, multi_len=1, arg_multi_len=1)))
     return out
 
 
